@@ -43,8 +43,8 @@ fn internal_htlc_satisfies_config(
 			.and_then(|prop_fee: u64| -> (o: Option<u64>)
         ensures o == (if prop_fee as int / 1000000 + config.forwarding_fee_base_msat as int <= u64::MAX { Some((prop_fee as int / 1000000 + config.forwarding_fee_base_msat as int) as u64) } else { None::<u64> })
         { (prop_fee / 1000000).checked_add(config.forwarding_fee_base_msat as u64) });
-		if fee.is_some() && (htlc.amount_msat < fee.unwrap() ||
-			(htlc.amount_msat - fee.unwrap()) < amt_to_forward) {
+		if fee.is_none() || htlc.amount_msat < fee.unwrap() ||
+			(htlc.amount_msat - fee.unwrap()) < amt_to_forward {
 			return Err(LocalHTLCFailureReason::FeeInsufficient);
 		}
 		if (htlc.cltv_expiry as u64) < outgoing_cltv_value as u64 + config.cltv_expiry_delta as u64 {
@@ -232,6 +232,14 @@ pub fn final_hop_acceptance_tests(onion_cltv_expiry: u32, cltv_expiry: u32, curr
 
 proof fn vac__final_hop_acceptance_tests(onion_cltv_expiry: u32, cltv_expiry: u32, current_height: u32, allow_underpay: bool, onion_amt_msat: u64, amt_msat: u64, counterparty_skimmed_fee_msat: Option<u64>) 
     requires current_height <= 0x7fff_ffff,
+    ensures false
+{}
+proof fn vac__lemma__lemma_forward_race(h: int, incoming: int, outgoing: int, delta: int)
+    requires delta >= MIN_CLTV_EXPIRY_DELTA, incoming >= outgoing + delta,
+    ensures false
+{}
+proof fn vac__lemma__lemma_div_bound(p: int, prop: int, a: int)
+    requires p >= 0, prop >= 0, a == (p * 1_000_000) / (prop + 1_000_000),
     ensures false
 {}
 }
